@@ -208,7 +208,9 @@ RULES = {
     "C07": "same scenarios; non-trivial = distinct scenario in which the node's own producer bundles a block",
     "C13": "same scenarios; non-trivial = distinct scenario whose chain grows past G+1 blocks (some output leaves the window)",
     "C14": "same scenarios; non-trivial = distinct scenario with at least two pool operations and a block",
-    "C19": "same scenarios; non-trivial = distinct scenario in which the node's key receives or spends an output",
+    "C19": "same scenarios + the wallet family (the node's own wallet builds payments of nothing / one / half / everything / one more than "
+           "everything, with and without fee, several before any is confirmed; its own blocks confirm them; peer payments; window wrap; restart); "
+           "non-trivial = distinct scenario in which the node's key receives or spends an output",
 }
 
 
